@@ -134,7 +134,7 @@ STRENGTHENED = {
  'C11-K': 'missed at first: the direct family now also writes a HAVING without GROUP BY (only its reflection in the configuration is judged)',
  'C15-K': 'missed at first: a third of the WITHIN cases run on a 500 ns grid with WITHIN written as a fractional number of microseconds (`1.5 US`)',
  'C15-L': 'missed at first: added the stream `c15pause` (sequence-number ORDER BY values, WITHIN \'200ms\', a producer that pauses 450 ms inside a match; the verdict is the content delivered, not a time)',
- 'C05-K': 'NOT caught: needs uint64 values near 2^64 (the unchanged engine already mis-decides those against integer literals, so the class is left out)',
+ 'C05-K': 'missed at first (uint64 values near 2^64 were left out because the unchanged engine mis-decides them against integer literals): added the stream `c05unsigned`, which compares them with fractional literals only, where the unchanged engine is right',
 }
 rows = []
 n = caught = 0
